@@ -527,6 +527,8 @@ fn schema_to_base_schemakind(schema: &Schema) -> SchemaKind {
             _ => unreachable!(),
         },
         SchemaKind::Duration => SchemaKind::Fixed,
+        // A big-decimal is a `bytes` as well (a value of it is looked up among the `bytes` branches)
+        SchemaKind::BigDecimal => SchemaKind::Bytes,
         _ => kind,
     }
 }
